@@ -85,6 +85,9 @@ class Layout:
             parts = []
             for lb, ub in d['dims']:
                 ubs = f'{ub} + zdynz%' if d['dyn'] else str(ub)
+                if not d['dyn'] and self.r.random() < 0.2:
+                    # fractional constant bound; the declared bound is the rounded value
+                    ubs = repr(ub + self.r.choice([0.4, -0.3]))
                 parts.append(f'{lb} TO {ubs}' if (lb != 0 or self.r.random() < 0.5) else ubs)
             s += '(' + ', '.join(parts) + ')'
         t = d['type']
@@ -202,7 +205,7 @@ def build(seed, kind, scope):
                     R(names[j])
         for l in names:
             R(l)
-    st = {'byref_writes': 0, 'recursive_activations': 0}
+    st = {'byref_writes': 0, 'recursive_activations': 0, 'record_params': 0}
     # by-reference writes through call depth 1-4 and expression arguments (only for scalar-typed locations)
     procs = []
     for t in TYPES:
@@ -225,6 +228,34 @@ def build(seed, kind, scope):
             ops.append(f'{sub} {l}, {lit(t, v)}')
             model[l] = v
             st['byref_writes'] += 1
+        for l2 in names:
+            R(l2)
+    # records passed by reference: the callee writes and reads several fields of its parameter
+    recbases = []
+    for d in decls:
+        if isinstance(d['type'], tuple):
+            if d['dims'] is None:
+                recbases.append((d['name'], d['type']))
+            else:
+                idx = ', '.join(str(r.randint(lb, ub)) for lb, ub in d['dims'])
+                recbases.append((f"{d['name']}({idx})", d['type']))
+    for bi, (base, t) in enumerate(r.sample(recbases, min(2, len(recbases)))):
+        fl = L.fields('zp', t)
+        if not all((base + path[2:]) in model for path, _ in fl):
+            continue
+        sub = f'zrw{bi}'
+        body_ = []
+        for path, ft in fl:
+            k[0] += 1
+            v = sentinel(ft, k[0])
+            body_.append(f'{path} = {lit(ft, v)}')
+            model[base + path[2:]] = v
+        procs += [f'SUB {sub} (zp AS {t[1]})'] + body_ + [f'PRINT {path}' for path, _ in fl] + ['END SUB']
+        ops.append(f'{sub} {base}')
+        for path, ft in fl:
+            exp.append((ft, model[base + path[2:]], f'{base}{path[2:]} (inside {sub})'))
+        st['byref_writes'] += len(fl)
+        st['record_params'] = st.get('record_params', 0) + 1
         for l2 in names:
             R(l2)
     body_decl_kw = {'main': 'DIM', 'shared': 'DIM SHARED', 'proc': 'DIM', 'static': 'STATIC', 'staticproc': 'DIM'}[scope]
@@ -293,6 +324,7 @@ def gen_cases(tier, seed):
 def run_case(case):
     text, exp, rec_exp, nloc, st0, order = build(case['seed'], case['kind'], case['scope'])
     st = {'layouts': 1, 'locations': nloc, 'reads_compared': 0, 'byref_writes': st0['byref_writes'],
+          'record_params': st0.get('record_params', 0),
           'recursive_activations': st0['recursive_activations'], 'read_monitor_evaluations': 0, 'cell_writes_monitored': 0}
     viol = []
     cfg = tuple(case['cfg'])
